@@ -893,6 +893,198 @@ fn random_op(r: &mut Rng, model: &MNode) -> Op {
     }
 }
 
+
+// ---------------------------------------------------------------------------------------
+// Wide hand-built trees: one parent with N children (N at decimal round numbers, powers of two +-1 and
+// seeded log-uniform magnitudes), then a random sequence of add / add-again / mark-optional / remove /
+// lookup on names inside and outside the set, checked after every step against a map model through
+// children(), get_child(), get_child_mut() and remove_child(), and through the rendering.
+// Every child carries a grandchild with a unique marker name so that "the child with the given name"
+// and "marking optional preserves the subtree" are observable.
+// ---------------------------------------------------------------------------------------
+
+struct WideChild {
+    name: String,
+    optional: bool,
+    marker: String,
+}
+
+fn wide_fail(rep: &mut Report, sig: &str, detail: String, width: usize, log: &[String]) {
+    let tail: Vec<&String> = log.iter().rev().take(12).rev().collect();
+    rep.violation(sig, detail, json!({"wide_tree_width": width, "ops_total": log.len(), "last_ops": tail}));
+}
+
+fn wide_compare(real: &Element<String>, model: &[WideChild], rep: &mut Report, width: usize, log: &[String], render: bool) -> bool {
+    let kids = real.children();
+    if kids.len() != model.len() {
+        wide_fail(rep, "wide:children-count", format!("children() has {} entries, the model {}", kids.len(), model.len()), width, log);
+        return false;
+    }
+    let mut seen = std::collections::HashSet::new();
+    for k in kids {
+        if !seen.insert(k.inner_t().name.clone()) {
+            wide_fail(rep, "wide:duplicate-child-name", format!("child name {} occurs twice under one parent", k.inner_t().name), width, log);
+            return false;
+        }
+    }
+    for m in model {
+        match real.get_child(&m.name) {
+            None => {
+                wide_fail(rep, "wide:lookup-misses-present-child", format!("get_child({}) is None although the child was added and never removed", m.name), width, log);
+                return false;
+            }
+            Some(c) => {
+                let opt = matches!(c, Necessity::Optional(_));
+                let e = c.inner_t();
+                let marker_ok = e.children().len() == 1 && e.children()[0].inner_t().name == m.marker;
+                if e.name != m.name || opt != m.optional || !marker_ok {
+                    wide_fail(
+                        rep,
+                        "wide:lookup-wrong-child",
+                        format!("get_child({}) returned name={} optional={} (model optional={}) marker-ok={}", m.name, e.name, opt, m.optional, marker_ok),
+                        width,
+                        log,
+                    );
+                    return false;
+                }
+            }
+        }
+    }
+    if render {
+        let out = match crate::hist::guarded(|| real.to_serde_struct(&crate::real::opts_qx(false))) {
+            Ok(o) => o,
+            Err(p) => {
+                wide_fail(rep, "wide:render-panic", p, width, log);
+                return false;
+            }
+        };
+        rep.count("wide_tree_renderings");
+        match crate::extract::parse_rendered(&out) {
+            Err(e) => {
+                wide_fail(rep, "wide:render-unparsable", e, width, log);
+                return false;
+            }
+            Ok(structs) => {
+                let root = &structs[0];
+                let mut want: Vec<(String, bool)> = model.iter().map(|m| (m.name.clone(), m.optional)).collect();
+                let mut got: Vec<(String, bool)> = root.fields.iter().map(|f| (f.binding().to_string(), f.optional)).collect();
+                want.sort();
+                got.sort();
+                if want != got || root.fields.iter().any(|f| f.vec) || structs.len() != 1 + 2 * model.len() {
+                    let diff: Vec<&(String, bool)> = want.iter().filter(|w| !got.contains(w)).chain(got.iter().filter(|g| !want.contains(g))).take(6).collect();
+                    wide_fail(
+                        rep,
+                        "wide:render-differs-from-tree",
+                        format!("root struct has {} fields / {} structs, the model {} children; differing (name, optional): {:?}", got.len(), structs.len(), want.len(), diff),
+                        width,
+                        log,
+                    );
+                    return false;
+                }
+            }
+        }
+    }
+    true
+}
+
+pub fn wide_widths(r: &mut Rng, thorough: bool) -> Vec<usize> {
+    let mut v: Vec<usize> = vec![2, 7, 8, 9, 12, 15, 16, 17, 20, 23, 24, 25, 26, 30, 31, 32, 33, 40, 48, 50, 63, 64, 65, 100, 127, 128, 129, 200, 255, 256, 257, 300];
+    if thorough {
+        v.extend_from_slice(&[500, 511, 512, 513, 1000, 1023, 1024, 1025]);
+    }
+    for _ in 0..(if thorough { 24 } else { 6 }) {
+        let (a, b) = (2f64.ln(), (if thorough { 1500f64 } else { 400f64 }).ln());
+        let u = r.below(1_000_000) as f64 / 1_000_000.0;
+        v.push(((a + (b - a) * u).exp() as usize).max(2));
+    }
+    v
+}
+
+pub fn run_wide_tree(width: usize, r: &mut Rng, rep: &mut Report) {
+    let mut uid = 0u64;
+    let mut mk = |name: &str| -> (Element<String>, String) {
+        uid += 1;
+        let marker = format!("g{}", uid);
+        let mut e = Element::new(name.to_string(), vec![]);
+        e.add_unique_child(Element::new(marker.clone(), vec!["k".to_string()]));
+        (e, marker)
+    };
+    let name_of = |i: usize| format!("c{:04}", i);
+    let mut real: Element<String> = Element::new("root".to_string(), vec![]);
+    let mut model: Vec<WideChild> = Vec::new();
+    let mut log: Vec<String> = Vec::new();
+    for i in 0..width {
+        let (e, marker) = mk(&name_of(i));
+        real.add_unique_child(e);
+        model.push(WideChild { name: name_of(i), optional: false, marker });
+        log.push(format!("add {}", name_of(i)));
+    }
+    rep.count("wide_trees");
+    rep.max("max_children_of_a_hand_built_parent", width as u64);
+    if !wide_compare(&real, &model, rep, width, &log, true) {
+        return;
+    }
+    let n_ops = r.range(12, 40);
+    for step in 0..n_ops {
+        // names mostly inside the current set, sometimes outside (new or removed)
+        let name = if r.chance(4, 5) && !model.is_empty() { model[r.below(model.len())].name.clone() } else { name_of(r.below(width + 8)) };
+        let present = model.iter().position(|m| m.name == name);
+        match r.below(5) {
+            0 | 1 => {
+                let (e, marker) = mk(&name);
+                real.add_unique_child(e);
+                log.push(format!("add {}", name));
+                if present.is_none() {
+                    model.push(WideChild { name: name.clone(), optional: false, marker });
+                }
+            }
+            2 => {
+                real.set_child_optional(&name);
+                log.push(format!("set_child_optional {}", name));
+                if let Some(i) = present {
+                    model[i].optional = true;
+                }
+            }
+            3 => {
+                let got = real.remove_child(&name);
+                log.push(format!("remove_child {}", name));
+                match (present, got) {
+                    (None, None) => {}
+                    (Some(i), Some(c)) => {
+                        let m = model.remove(i);
+                        let e = c.inner_t();
+                        if e.name != m.name || e.children().len() != 1 || e.children()[0].inner_t().name != m.marker {
+                            wide_fail(rep, "wide:remove-wrong-child", format!("remove_child({}) returned {} with another subtree", m.name, e.name), width, &log);
+                            return;
+                        }
+                    }
+                    (Some(_), None) => {
+                        wide_fail(rep, "wide:remove-misses-present-child", format!("remove_child({}) returned None for a present child", name), width, &log);
+                        return;
+                    }
+                    (None, Some(c)) => {
+                        wide_fail(rep, "wide:remove-returns-absent-child", format!("remove_child({}) returned {} although no such child exists", name, c.inner_t().name), width, &log);
+                        return;
+                    }
+                }
+            }
+            _ => {
+                let got = real.get_child_mut(&name).map(|c| c.inner_t().name.clone());
+                log.push(format!("get_child_mut {}", name));
+                if got != present.map(|i| model[i].name.clone()) {
+                    wide_fail(rep, "wide:lookup-mut-disagrees", format!("get_child_mut({}) gave {:?}, the model {:?}", name, got, present.is_some()), width, &log);
+                    return;
+                }
+            }
+        }
+        rep.count("wide_tree_ops");
+        let render = width <= 40 || step % 8 == 7 || step + 1 == n_ops;
+        if !wide_compare(&real, &model, rep, width, &log, render) {
+            return;
+        }
+    }
+}
+
 pub fn run_c16(thorough: bool, seed: u64, shards: usize) -> (Report, String) {
     let alphabet = op_alphabet();
     let k = alphabet.len();
@@ -942,10 +1134,21 @@ pub fn run_c16(thorough: bool, seed: u64, shards: usize) -> (Report, String) {
                 rep.sample(json!({"ops": ops}));
             }
         }
+        // wide parents
+        let mut wr = Rng::derive(seed, "C16-wide", 0);
+        let widths = wide_widths(&mut wr, thorough);
+        for (i, w) in widths.iter().enumerate() {
+            if i % shards == shard {
+                for rep_i in 0..(if thorough { 12 } else { 3 }) {
+                    let mut r = Rng::derive(seed, "C16-wide-ops", (i * 100 + rep_i) as u64);
+                    run_wide_tree(*w, &mut r, &mut rep);
+                }
+            }
+        }
         rep
     });
     let rule = format!(
-        "exhaustive: all {}^{} = {} sequences of {} ops over an alphabet of {} public operations (add / add-marked / set-optional / remove at root and nested, merge_attr with tagged lists, set_multiple, text, cut = remove and keep, paste = add a previously used element again) on names a, b, type, d, ns:e, F, text starting from Element::new(\"a\"), alternating Element<String> and Element<&str>; after EVERY step the tree is compared with an ordered-map model through children()/get_child()/standalone()/text and through its rendering; plus {} random sequences of 5..40 ops over names a-d at depth <= 4. Non-trivial/distinct: distinct final model states.",
+        "exhaustive: all {}^{} = {} sequences of {} ops over an alphabet of {} public operations (add / add-marked / set-optional / remove at root and nested, merge_attr with tagged lists, set_multiple, text, cut = remove and keep, paste = add a previously used element again) on names a, b, type, d, ns:e, F, text starting from Element::new(\"a\"), alternating Element<String> and Element<&str>; after EVERY step the tree is compared with an ordered-map model through children()/get_child()/standalone()/text and through its rendering; plus {} random sequences of 5..40 ops over names a-d at depth <= 4; plus wide parents: N children (N = 2..300 at round numbers and powers of two +-1 and seeded log-uniform magnitudes, thorough to 1500), each carrying a uniquely named grandchild, then 12..40 random add / add-again / set_child_optional / remove_child / get_child_mut ops on names inside and outside the set, compared after every step with a map model through children(), get_child() (name, optionality, subtree marker) and through the rendering (field set and optionality of the root struct, number of structs). Non-trivial/distinct: distinct final model states.",
         k, max_len, total, max_len, k, n_random
     );
     (rep, rule)
